@@ -201,26 +201,32 @@ fn gen_stage(rng: &mut Rng, cur: &Cursor, sw: &Swarm, cfg: &GenCfg) -> Option<St
         return Some(Stage::Loose { m: 2 + rng.below(2) });
     }
     if cur.res {
-        return Some(match rng.below(4) {
+        return Some(match rng.below(6) {
             0 => Stage::MapId,
             1 if cur.de => Stage::Rev,
             2 => Stage::StepBy { k: 1 + rng.below(3) },
+            3 => Stage::Scan,
+            4 => Stage::ToTrust,
             _ => Stage::Take { k: gen_k(rng, cur.rem) },
         });
     }
     if cur.ty == Ty::Trk {
-        return Some(match rng.below(5) {
+        return Some(match rng.below(7) {
             0 => Stage::MapId,
             1 if cur.de => Stage::Rev,
             4 => Stage::StepBy { k: 1 + rng.below(3) },
+            5 => Stage::Scan,
+            6 => Stage::ToTrust,
             2 => Stage::Shift { n: gen_lag(rng, cur.rem, false), v: Val::I(1000 + rng.below(10) as i64) },
             _ => Stage::Take { k: gen_k(rng, cur.rem) },
         });
     }
     let ty = cur.ty;
     for _ in 0..20 {
-        let st = match rng.below(21) {
+        let st = match rng.below(24) {
             19 => Stage::StepBy { k: 1 + rng.below(3) },
+            21 => Stage::Scan,
+            22 | 23 => Stage::ToTrust,
             0 => Stage::Abs,
             1 => Stage::VAbs,
             2 | 3 | 4 => Stage::Shift {
@@ -296,7 +302,7 @@ fn gen_stage(rng: &mut Rng, cur: &Cursor, sw: &Swarm, cfg: &GenCfg) -> Option<St
 fn apply_model(cur: &mut Cursor, st: &Stage) {
     cur.depth += 1;
     match st {
-        Stage::Rev | Stage::MapId => {},
+        Stage::Rev | Stage::MapId | Stage::ToTrust => {},
         Stage::Take { k } => {
             cur.rem = cur.rem.min(*k);
             cur.de = false;
@@ -469,8 +475,10 @@ pub fn gen_pipe(rng: &mut Rng, cfg: &GenCfg) -> Pipe {
                 Op::Wrap(Stage::MapId)
             } else if sinks && roll < 90 {
                 // sinks mix: keep the pipeline thin
-                match rng.below(4) {
+                match rng.below(6) {
                     3 if !(cur.res && cur.ty == Ty::Trk) => Op::Wrap(Stage::Loose { m: 2 + rng.below(2) }),
+                    4 => Op::Wrap(Stage::Scan),
+                    5 => Op::Wrap(Stage::ToTrust),
                     0 => Op::Wrap(Stage::MapId),
                     1 if cur.de => Op::Wrap(Stage::Rev),
                     _ => Op::Wrap(Stage::Take { k: gen_k(rng, cur.rem) }),
